@@ -380,6 +380,11 @@ def translate(repo):
     L.append('Definition ff_iregs : list Z := [%s].' % ('; '.join(x.strip() for x in m.group(1).split(',') if x.strip()) if m and m2 else '7; 6; 2; 1; 8; 9'))
     L.append('Definition ff_max_iregs : Z := %s.' % (m2.group(1) if m and m2 else '6'))
     L.append('Definition ff_max_xregs : Z := %s.' % (m2.group(2) if m and m2 else '8'))
+    # is the stack copy loop emitted only for blocks of at least one eightbyte?
+    m = re.search(r'(if \((?:qwords != 0|qwords > 0|qwords)\)\s*)?gen_blk_mov \(code, sp_offset,', fb)
+    if m is None:
+        fallback('the gen_blk_mov call for stack-passed blocks in _MIR_get_ff_call')
+    L.append('Definition gen_blk_mov_guarded : bool := %s.' % ('false' if (m is not None and m.group(1) is None) else 'true'))
     arrs = byte_arrays(x86)
     stubs = []
     for n in sorted(arrs):
